@@ -10,6 +10,20 @@ use serde_json::json;
 use wmodel::reach::reach;
 use wmodel::{decode, iso, IsoMode, Space};
 
+/// everything the independent reachability analysis finds reachable in `a` must have a
+/// counterpart in `b` (maps from iso in gc mode): (signature suffix, detail) per lost kind
+pub fn reachable_lost(a: &wmodel::WModule, maps: &wmodel::Maps) -> Vec<(String, String)> {
+    let rs = reach(a);
+    let mut out = vec![];
+    for (sp, name) in [(Space::Func, "function"), (Space::Table, "table"), (Space::Mem, "memory"), (Space::Global, "global"), (Space::Elem, "element-segment"), (Space::Data, "data-segment")] {
+        let lost: Vec<usize> = rs.get(sp).iter().enumerate().filter(|(i, r)| **r && maps.f(sp, *i as u32).is_none()).map(|(i, _)| i).collect();
+        if !lost.is_empty() {
+            out.push((name.to_string(), format!("{} {:?} reachable from the roots before gc, gone afterwards", name, lost)));
+        }
+    }
+    out
+}
+
 /// C06 structural: parse; gc; emit -> valid, same exports, kept part isomorphic
 pub fn check_c06(c: &Case) -> CaseResult {
     let mut r = CaseResult::default();
@@ -42,6 +56,18 @@ pub fn check_c06(c: &Case) -> CaseResult {
     match iso(&a, &b, IsoMode::Gc) {
         Ok(m) => {
             r.nontrivial = m.fwd.iter().any(|v| v.iter().any(|x| x.is_none()));
+            // reachability is judged on the plain round trip (walrus has already dropped dead code
+            // there, which the analysis does not model), against the output after gc
+            if let Ok(plain) = roundtrip(&c.wasm, &Cfg::default(), false) {
+                if let Ok(p) = decode(&plain) {
+                    if let Ok(pm) = iso(&p, &b, IsoMode::Gc) {
+                        for (kind, detail) in reachable_lost(&p, &pm) {
+                            r.violations.push(Violation::new("C06", format!("gc-removed-reachable:{}", kind), detail, c));
+                        }
+                    }
+                }
+            }
+            let _ = &m;
         }
         Err(ms) => {
             r.nontrivial = true;
@@ -127,7 +153,7 @@ impl<'a> GcSubject<'a> {
         for op in hist {
             match op {
                 MOp::Gc => walrus::passes::gc::run(&mut m),
-                MOp::Emit => {
+                MOp::Emit | MOp::EmitFile => {
                     m.emit_wasm();
                 }
                 MOp::Reparse => {
@@ -154,7 +180,7 @@ impl<'a> Subject for GcSubject<'a> {
     fn apply(&self, o: &mut GObj, op: &MOp, _at: usize) -> Result<(), Finding> {
         match op {
             MOp::Gc => walrus::passes::gc::run(&mut o.m),
-            MOp::Emit => {
+            MOp::Emit | MOp::EmitFile => {
                 o.m.emit_wasm();
             }
             MOp::Reparse => {
@@ -201,7 +227,7 @@ fn hist_of(cfg: &serde_json::Value) -> Vec<MOp> {
         .unwrap_or_default()
 }
 fn hist_json(h: &[MOp]) -> serde_json::Value {
-    json!(h.iter().map(|o| match o { MOp::Emit => "emit", MOp::Gc => "gc", MOp::Reparse => "reparse" }).collect::<Vec<_>>())
+    json!(h.iter().map(|o| match o { MOp::Emit => "emit", MOp::Gc => "gc", MOp::Reparse => "reparse", MOp::EmitFile => "emit-file" }).collect::<Vec<_>>())
 }
 
 pub fn check_c07_idem(c: &Case, depth: usize) -> (Stats, Vec<Violation>) {
@@ -224,6 +250,9 @@ pub fn check_c07_idem(c: &Case, depth: usize) -> (Stats, Vec<Violation>) {
 
 fn recheck(prop: &'static str, c: &Case) -> Vec<Violation> {
     if prop == "C06" {
+        if c.cfg.get("edits").is_some() {
+            return crate::props::edits::recheck_as("C06", c);
+        }
         if c.cfg.get("bisim").is_some() {
             return crate::props::bisim::recheck("C06", c);
         }
@@ -264,8 +293,9 @@ pub fn run(prop: &'static str, args: &Args) -> i32 {
     if prop == "C06" {
         viol = run_sweep(args, &mut ev, &cases, &check_c06);
         viol.extend(crate::props::bisim::run_gc(args, &mut ev, &cases));
+        viol.extend(crate::props::edits::run_model_as("C06", args, &mut ev));
         ev.rule = "every member of reach(k)/struct/fixtures/funcs and the stateful modules through parse; gc; emit: no panic, output validates, export list equal, kept part isomorphic to the input \
-            (iso mode=gc); plus product exploration of input vs output instances in node/V8 (bisim) over call sequences. non-trivial = gc removed something"
+            (iso mode=gc); everything an independent reachability analysis finds reachable in the plain round trip still present after gc; the same two rules in every state of the edit model (props/edits.rs) whose history ends in gc, against the same history without that gc; plus product exploration of input vs output instances in node/V8 (bisim) over call sequences. non-trivial = gc removed something"
             .into();
     } else {
         viol = run_sweep(args, &mut ev, &cases, &check_c07_precision);
